@@ -4,6 +4,7 @@
 From Coq Require Import List NArith ZArith Bool.
 Import ListNotations.
 From VF Require Export C20.Model.
+From VF Require Export common.Json C20.JsonPath.
 
 Fixpoint listN_eqb (a b : list N) : bool :=
   match a, b with
@@ -136,10 +137,81 @@ Definition check_rcase (k : rcase) : bool :=
   | _, _ => false
   end.
 
-Inductive case := Px (k : pcase) | Ax (k : pcase) | Mx (k : mcase) | Ix (k : icase) | Rx (k : rcase).
+From Coq Require Import String.
+(* the two JSONPath engines driven directly on a JSON document: per path text what jsonpath.Get returned (None = error),
+   and what compactArrayPaths reported over all the texts (newPath, oldPath) IN ORDER (None = error) *)
+Record jcase := { j_doc : json; j_paths : list string; j_get : list (option json);
+                  j_stream : option (list (string * string)) }.
+Fixpoint count_json (x : json) (l : list json) : nat :=
+  match l with [] => O | y :: r => ((if json_eqb x y then 1 else 0) + count_json x r)%nat end.
+Definition perm_json (a b : list json) : bool :=
+  Nat.eqb (List.length a) (List.length b) && forallb (fun x => Nat.eqb (count_json x a) (count_json x b)) a.
+Definition get_eqb (doc : json) (path : string) (o : option json) : bool :=
+  match p_eval path doc, o with
+  | Some (true, [x]), Some y => json_eqb x y
+  | Some (true, [x]), None => false
+  | Some (true, _), None => true
+  | Some (false, l), Some (JArr l') => perm_json l l'
+  | None, None => true
+  | _, _ => false
+  end.
+Fixpoint gets_eqb (doc : json) (ps : list string) (os : list (option json)) : bool :=
+  match ps, os with
+  | [], [] => true
+  | p :: r, o :: t => get_eqb doc p o && gets_eqb doc r t
+  | _, _ => false
+  end.
+Fixpoint pairs_eqb (a b : list (string * string)) : bool :=
+  match a, b with
+  | [], [] => true
+  | (x, y) :: r, (x', y') :: t => String.eqb x x' && String.eqb y y' && pairs_eqb r t
+  | _, _ => false
+  end.
+Definition check_jcase (k : jcase) : bool :=
+  gets_eqb (j_doc k) (j_paths k) (j_get k) &&
+  match k_compact F2 (j_paths k) (j_doc k) [], j_stream k with
+  | Some (l, _), Some l' => pairs_eqb l l'
+  | None, None => true
+  | _, _ => false
+  end.
+
+(* filterField driven directly: paths + JSON-schema filter + optional on a JSON document *)
+Record fcase := { x_doc : json; x_paths : list string; x_schema : option schema; x_opt : bool; x_ok : bool }.
+Definition check_fcase (k : fcase) : bool :=
+  Bool.eqb (field_json_ok (x_doc k) (x_schema k) (x_opt k) (x_paths k)) (x_ok k).
+
+(* createNewCredential driven directly: source document, template, fields (paths, predicate) and the credential it
+   returned, re-marshalled.  Compared on the members a verifier reads: credentialSubject, type, issuer, id, @context
+   (ParseCredential + MarshalJSON write a one-element type list as a string and an issuer with nothing but an id as
+   that id). *)
+Record lcase := { l_limit : bool; l_src : json; l_tmpl : json; l_fields : list jfield; l_out : json }.
+Definition norm_type (j : json) : json := match j with JStr s => JArr [JStr s] | _ => j end.
+Definition norm_issuer (j : json) : json := match j with JObj [(k, x)] => if String.eqb k "id" then x else j | _ => j end.
+Definition member_eqb (norm : json -> json) (k : string) (a b : json) : bool :=
+  match a, b with
+  | JObj m, JObj m' =>
+      match lookup m k, lookup m' k with
+      | Some x, Some y => json_eqb (norm x) (norm y)
+      | None, None => true
+      | _, _ => false
+      end
+  | _, _ => false
+  end.
+Definition vc_eqb (a b : json) : bool :=
+  member_eqb (fun x => x) "credentialSubject" a b && member_eqb norm_type "type" a b &&
+  member_eqb norm_issuer "issuer" a b && member_eqb (fun x => x) "id" a b && member_eqb (fun x => x) "@context" a b.
+Definition check_lcase (k : lcase) : bool :=
+  match limit_json F2 (l_limit k) (l_src k) (l_tmpl k) (l_fields k) with
+  | Some o => vc_eqb o (l_out k)
+  | None => false
+  end.
+
+Inductive case := Px (k : pcase) | Ax (k : pcase) | Mx (k : mcase) | Ix (k : icase) | Rx (k : rcase)
+                | Jx (k : jcase) | Fx (k : fcase) | Lx (k : lcase).
 Definition check_case (c : case) : bool :=
   match c with
   | Px k => check_pcase k | Ax k => check_acase k | Mx k => check_mcase k | Ix k => check_icase k | Rx k => check_rcase k
+  | Jx k => check_jcase k | Fx k => check_fcase k | Lx k => check_lcase k
   end.
 
 Fixpoint mismatches_from (i : nat) (cs : list case) : list nat :=
